@@ -61,9 +61,23 @@ ATOL = Fraction(1, 10**8)
 RTOL = Fraction(1, 10**5)
 
 
+_BYLABEL_CACHE = {}
+
+
 def _bylabel():
     """0: the value-dictionary-order defect is listed open (model = `_perform_computation` as coded); 1: repaired."""
-    return 0 if any(f.get("id") == FINDING_ORDER for f in common.load_findings(PROP)) else 1
+    if "v" not in _BYLABEL_CACHE:     # read once per process (the findings files may be rewritten concurrently)
+        import time
+
+        for attempt in range(5):
+            try:
+                _BYLABEL_CACHE["v"] = 0 if any(f.get("id") == FINDING_ORDER for f in common.load_findings(PROP)) else 1
+                break
+            except ValueError:
+                time.sleep(0.5)
+        else:
+            raise common.InfraError("known findings unreadable")
+    return _BYLABEL_CACHE["v"]
 
 
 def _fd():
@@ -782,6 +796,52 @@ def derived_cases(rng: Rng, n):
             yield case
 
 
+DECIMALS = [0.1, 0.01, 0.3, 1.0 / 3.0, 0.7, 0.001, 0.05, 1e-9, 0.1 * 2.0**20, 2.5e6 / 3.0]
+
+
+def _decimal_values(rng: Rng, n, d):
+    """Floats next to integer multiples of `d` (k*d in floating point, or the decimal literal): their
+    quotients by `d` sit within rounding of an integer.  The description holds the floats' *exact* rationals."""
+    out = []
+    for _ in range(n):
+        k = rng.randint(-12, 60)
+        c = rng.random()
+        if c < 0.45:
+            x = float(k) * d
+        elif c < 0.8:
+            x = float(f"{k * d:.12g}")
+        else:
+            x = float(k) * d + rng.choice([0.0, d / 2, 1e-12 * d])
+        out.append(Fraction(x))
+    return out
+
+
+def decimal_cases(rng: Rng, n):
+    """Decimal (non-dyadic) operands: `//` and `/` where the rounded quotient may land on an integer while
+    the exact quotient of the two floats does not (1.0 // 0.1 is 9), data and scalar divisors."""
+    for _ in range(n):
+        d = rng.choice(DECIMALS)
+        dim = rng.choice([1, 1, 2])
+        nobs = rng.choice([1, 2, 3])
+        if rng.random() < 0.6:
+            grid = rgrid(rng, dim)
+            m = gsize(grid)
+            a = D(grid, [_decimal_values(rng, m, d) for _ in range(nobs)])
+            b = D(grid, [[Fraction(rng.choice([d, d, -d, 2 * d, rng.choice(DECIMALS)])) for _ in range(m)] for _ in range(nobs)])
+        else:
+            labels = list(range(nobs))
+            grids = [rgrid(rng, dim) for _ in labels]
+            a = I([(l, g, _decimal_values(rng, gsize(g), d)) for l, g in zip(labels, grids)])
+            b = I([(l, g, [Fraction(rng.choice([d, d, -d, 2 * d])) for _ in range(gsize(g))]) for l, g in zip(labels, grids)])
+        for op in (["floordiv", "div"] if rng.random() < 0.7 else ["floordiv"] + [rng.choice(OPS)]):
+            yield dict(kind="bin", op=op, a=a, b=b, respect="ok", decimal=True)
+        c = Fraction(rng.choice([d, d, -d, 3 * d]))
+        kind = rng.choice(["float", "float", "npfloat64"])
+        yield dict(kind="sc", op="floordiv", a=a, skind=kind, c=q(c), reflected=False, decimal=True)
+        if rng.random() < 0.4:
+            yield dict(kind="sc", op=rng.choice(["div", "mul"]), a=a, skind=kind, c=q(c), reflected=False, decimal=True)
+
+
 def sc_cases(rng: Rng, n):
     for _ in range(n):
         a = rdata(rng)
@@ -843,6 +903,7 @@ def gen_cases(rng: Rng, tier):
     yield from FIXED
     yield from bin_cases(rng, 130 * k)
     yield from derived_cases(rng, 45 * k)
+    yield from decimal_cases(rng, 30 * k)
     yield from sc_cases(rng, 90 * k)
     yield from ident_cases(rng, 40 * k)
     yield from eq_cases(rng, 120 * k)
@@ -852,6 +913,7 @@ def gen_cases(rng: Rng, tier):
 def search_cases(rng: Rng, tier):
     yield from bin_cases(rng, 200)
     yield from derived_cases(rng, 80)
+    yield from decimal_cases(rng, 60)
     yield from sc_cases(rng, 100)
     yield from eq_cases(rng, 200)
     yield from mv_cases(rng, 100)
